@@ -14,7 +14,11 @@ typedef unsigned long long vp_word;
 
 /* word w of row r of M, current value / value before the call */
 #define VP_W(M, r, w) ((M)->data[(wi_t)(r) * (M)->rowstride + (wi_t)(w)])
+#if defined(VP_ASSERT_MODE) && !defined(VP_NATIVE)
+#define VP_W0(M, r, w) (vp_old_data(M)[(wi_t)(r) * (M)->rowstride + (wi_t)(w)])
+#else
 #define VP_W0(M, r, w) VP_OLD(VP_W(M, r, w))
+#endif
 /* cell (i,j) */
 #define VP_BIT(M, i, j) ((int)((VP_W(M, i, (j) / 64) >> ((j) % 64)) & 1))
 #define VP_BIT0(M, i, j) ((int)((VP_W0(M, i, (j) / 64) >> ((j) % 64)) & 1))
@@ -38,6 +42,16 @@ typedef unsigned long long vp_word;
 #define VP_GHOST_OK(M, gr, gw) VP_R_OK(&VP_W(M, gr, gw), 8)
 /* is ghost word (gr,gw) inside the view's rows/words? */
 #define VP_IN_VIEW(M, gr, gw) ((gr) >= 0 && (gr) < (M)->nrows && (gw) >= 0 && (gw) < (M)->width)
+
+#if defined(VP_ASSERT_MODE) && !defined(VP_NATIVE)
+/* shadow copy of the block M lives in, at M->data's offset */
+static inline word const *vp_old_data(mzd_t const *M) {
+  for (int k = 0; k < vp_reg_cnt; ++k)
+    if (vp_reg_hdr[k] == (void *)M) return (word const *)(vp_reg_old[k] + ((char *)M->data - vp_reg_blk[k]));
+  __CPROVER_assert(0, "VP_W0 of an unregistered matrix");
+  return M->data;
+}
+#endif
 
 /* ---- harness side: build a matrix header over an input block -------------------------------
  * The block has 2 guard words in front (see DESIGN.md 1: the code forms `eof - 1`), then
